@@ -24,13 +24,17 @@ LifeMs(ttl) == 1000 * (IF ttl = 0 THEN 1 ELSE ttl)
 
 Has(r, f) == f \in DOMAIN r
 Entry(r, idx, t, forus) ==
-  [ty |-> r.ty, nk |-> r.n.k, u |-> r.n.u, rk |-> r.rk, ifx |-> IF IsAddrTy(r.ty) THEN idx ELSE 0,
+  [ty |-> r.ty, nk |-> r.n.k, u |-> r.n.u, s |-> r.n.sk, rk |-> r.rk,
+   ts |-> IF Has(r, "t") THEN r.t.sk ELSE "",
+   us |-> {r.n.u},               \* owner spellings (letter case) under which the record is held
+   ifx |-> IF IsAddrTy(r.ty) THEN idx ELSE 0,
    srcif |-> idx,
    tk |-> IF Has(r, "t") THEN r.t.k ELSE "", tu |-> IF Has(r, "t") THEN r.t.u ELSE "",
    port |-> IF Has(r, "po") THEN r.po ELSE 0,
    txtd |-> IF Has(r, "txtd") THEN r.txtd ELSE <<>>,
    ip |-> IF Has(r, "ip") THEN r.ip ELSE "",
    at |-> t, ttl |-> r.ttl, exp |-> t + LifeMs(r.ttl), fl |-> r.fl, forus |-> forus,
+   vexp |-> t + LifeMs(r.ttl),   \* earliest instant from which the record MAY be treated as gone (verify)
    marks |-> {}]
 
 SameRRSet(e, r, idx) == e.ty = r.ty /\ e.nk = r.n.k /\ (IsAddrTy(r.ty) => e.ifx = idx)
@@ -41,11 +45,12 @@ Arrive(tab, r, idx, t, forus) ==
       flushed == IF r.fl
                  THEN [x \in DOMAIN tab |->
                         IF x # id /\ SameRRSet(tab[x], r, idx) /\ t > tab[x].at + 1000 /\ tab[x].exp > t + 1000
-                        THEN [tab[x] EXCEPT !.exp = t + 1000] ELSE tab[x]]
+                        THEN [tab[x] EXCEPT !.exp = t + 1000, !.vexp = IF @ < t + 1000 THEN @ ELSE t + 1000] ELSE tab[x]]
                  ELSE tab
       (* "for us" is remembered if any arrival of the record was for us      *)
-      fu == forus \/ (id \in DOMAIN tab /\ tab[id].forus /\ tab[id].exp > t)
-  IN [x \in DOMAIN flushed \cup {id} |-> IF x = id THEN Entry(r, idx, t, fu) ELSE flushed[x]]
+      fu == forus \/ (id \in DOMAIN tab /\ tab[id].forus /\ tab[id].exp > t /\ tab[id].vexp > t)
+      old == IF id \in DOMAIN tab /\ tab[id].exp > t THEN tab[id].us ELSE {}
+  IN [x \in DOMAIN flushed \cup {id} |-> IF x = id THEN [Entry(r, idx, t, fu) EXCEPT !.us = @ \cup old] ELSE flushed[x]]
 
 RECURSIVE ArriveAll(_, _, _, _, _)
 ArriveAll(tab, rs, idx, t, forus) ==
@@ -66,21 +71,28 @@ InstanceLive(tab, tyk, instk, t) ==
   /\ PtrIds(tab, tyk, instk, t) # {}
   /\ \E h \in HostsOf(tab, instk, t) : AddrIds(tab, h, t) # {}
 
-(* verify: SRV of the instance and the addresses of its host(s) expire at   *)
-(* the deadline unless refreshed                                            *)
+(* verify: the SRV of the instance expires at the deadline unless refreshed;  *)
+(* the addresses of its host(s) MAY be treated the same way (vexp), they need *)
+(* not be: the statement only promises the removal of the instance           *)
 Shorten(tab, instk, deadline, t) ==
-  LET hosts == HostsOf(tab, instk, t)
-      hit(id) == (id[1] = "SRV" /\ id[2] = instk) \/ (IsAddrTy(id[1]) /\ id[2] \in hosts)
-  IN [id \in DOMAIN tab |-> IF hit(id) /\ tab[id].exp > deadline THEN [tab[id] EXCEPT !.exp = deadline] ELSE tab[id]]
+  LET srv(id) == id[1] = "SRV" /\ id[2] = instk
+      hosts == {tab[id].tk : id \in {x \in DOMAIN tab : srv(x)}}
+      adr(id) == IsAddrTy(id[1]) /\ id[2] \in hosts
+  IN [id \in DOMAIN tab |->
+        IF srv(id) /\ tab[id].exp > deadline THEN [tab[id] EXCEPT !.exp = deadline, !.vexp = IF @ < deadline THEN @ ELSE deadline]
+        ELSE IF adr(id) /\ tab[id].vexp > deadline THEN [tab[id] EXCEPT !.vexp = deadline]
+        ELSE tab[id]]
 
-(* stop_browse forgets the PTRs of the type, the SRV/TXT of their instances *)
-(* and the addresses of their hosts unless another SRV still names the host *)
+(* stop_browse: the PTRs of the type are forgotten (a later browse of the    *)
+(* type replays nothing until they are heard again).  The SRV/TXT of their   *)
+(* instances and the addresses of their hosts should be forgotten as well;   *)
+(* the monitor does not insist on it (they may linger until their TTL), but  *)
+(* nothing is owed on their account any more.                                *)
 Forget(tab, tyk) ==
   LET ptrs  == {id \in DOMAIN tab : id[1] = "PTR" /\ id[2] = tyk}
       insts == {tab[id].tk : id \in ptrs}
       st    == {id \in DOMAIN tab : id[1] \in {"SRV", "TXT"} /\ id[2] \in insts}
       hosts == {tab[id].tk : id \in {x \in st : x[1] = "SRV"}}
-      keepH == {tab[id].tk : id \in {x \in DOMAIN tab : x[1] = "SRV" /\ x \notin st}}
-      addrs == {id \in DOMAIN tab : IsAddrTy(id[1]) /\ id[2] \in (hosts \ keepH)}
-  IN [id \in DOMAIN tab \ (ptrs \cup st \cup addrs) |-> tab[id]]
+      addrs == {id \in DOMAIN tab : IsAddrTy(id[1]) /\ id[2] \in hosts}
+  IN [id \in DOMAIN tab \ ptrs |-> IF id \in st \cup addrs THEN [tab[id] EXCEPT !.forus = FALSE] ELSE tab[id]]
 =============================================================================
